@@ -2,13 +2,14 @@
 # variants.sh [props...]: apply every property-preserving refactor under /verif/variants to a scratch
 # copy of /repo and run the quick checks against it: all must stay silent (false-alarm audit).
 set -u
-cd /verif
+V=$(cd "$(dirname "$0")/.." && pwd)   # the tree this script lives in (a `vp run` snapshot stays self-contained)
+cd $V
 bad=0
 for v in variants/*.diff; do
   d=/var/tmp/verif-varsrc-$$
   rm -rf $d; mkdir -p $d
   cp -r /repo/Cargo.toml /repo/Cargo.lock /repo/src /repo/tests $d/
-  if ! ( cd $d && git init -q . && git apply /verif/$v ); then echo "$v does not apply"; rm -rf $d; continue; fi
+  if ! ( cd $d && git init -q . && git apply $V/$v ); then echo "$v does not apply"; rm -rf $d; continue; fi
   rm -rf $d/.git
   out=$(tools/try_variant.sh $d "$@" 2>&1 | grep -v " ok$")
   if [ -n "$out" ]; then bad=$((bad+1)); echo "##### $v"; echo "$out"; else echo "$v: silent"; fi
